@@ -383,7 +383,7 @@ class SelInvert(_OpContract):
         return z3.Not(den(self.a, p))
 
 
-@contract("genjax.core:sel", ["C16"])
+@contract("genjax.core:sel", ["C16", "C04", "C05", "C09"])
 class SelCtor(Contract):
     """sel(), sel(None) select nothing; sel(()) everything; sel('a') everything under a;
     sel((a,b,..)) exactly that sub-tree; sel({...}) delegates per key."""
